@@ -109,6 +109,55 @@ def stadler_oracle(lam, mu, psi, rho, x0, xs, tips, survival=False, r=None, M=_F
     return lf
 
 
+def skyline2_oracle(recent, old, rho, rho1, hb, x0, xs, tips, survival=False, M=_FloatMath):
+    """Two epochs, composed from the constant-rate solution of Stadler (2010) instead of the skyline recursion:
+    recent epoch [0, hb) with rates `recent` = (lambda, mu, psi) and rho-sampling probability rho at height 0; at height
+    hb every lineage alive is sampled with probability rho1 (no tip of the tree is sampled there); older epoch [hb, x0]
+    with rates `old`.  The extinction probability solves the same Riccati equation in both epochs, so in the older epoch
+    it is the constant-rate p0 restarted at hb with 1 - rho_eff = (1 - rho1) p_recent(hb); a branch from height a to b
+    inside one epoch contributes q(a)/q(b); a lineage alive at hb contributes (1 - rho1)."""
+
+    def blocks(lam, mu, psi, rho_):
+        c1 = M.sqrt((lam - mu - psi) ** 2 + 4.0 * lam * psi)
+        c2 = -(lam - mu - 2.0 * lam * rho_ - psi) / c1
+
+        def q(t):
+            return 2.0 * (1.0 - c2 ** 2) + M.exp(-(c1 * t)) * (1.0 - c2) ** 2 + M.exp(c1 * t) * (1.0 + c2) ** 2
+
+        def p0(t):
+            em = M.exp(-(c1 * t))
+            return (lam + mu + psi + c1 * (em * (1.0 - c2) - (1.0 + c2)) / (em * (1.0 - c2) + (1.0 + c2))) / (2.0 * lam)
+
+        return q, p0
+
+    q_r, p_r = blocks(recent[0], recent[1], recent[2], rho)
+    rho_eff = 1.0 - (1.0 - rho1) * p_r(hb)
+    q_o, p_o = blocks(old[0], old[1], old[2], rho_eff)
+    n_cross = 1  # the lineage that starts at the origin
+    lf = -M.log(q_o(x0 - hb))
+    for x in xs:
+        if x > hb:
+            lf = lf + M.log(old[0]) - M.log(q_o(x - hb))
+            n_cross += 1
+        else:
+            lf = lf + M.log(recent[0]) - M.log(q_r(x))
+    for y in tips:
+        if y == 0 and rho > 0:
+            lf = lf + M.log(4.0 * rho)
+        elif y >= hb:
+            lf = lf + M.log(old[2]) + M.log(q_o(y - hb))
+            n_cross -= 1
+        else:
+            lf = lf + M.log(recent[2]) + M.log(q_r(y))
+    if n_cross:  # leaves the older epoch (q_o(0) = 4), is not sampled at hb, enters the recent epoch
+        lf = lf + n_cross * (M.log(4.0) - M.log(q_r(hb)))
+        if not (isinstance(rho1, (int, float)) and rho1 == 0):
+            lf = lf + n_cross * M.log(1.0 - rho1)
+    if survival:
+        lf = lf - M.log(1.0 - p_o(x0 - hb))
+    return lf
+
+
 # BEAST2 reference values copied from /repo/test/test_bdsky.py (single-epoch cases):
 # (lambda, mu, psi, rho, origin, branching times, tip heights, survival, r, literal)
 def _epi(R, delta, s, r=None):
@@ -131,8 +180,19 @@ BEAST_LITERALS = [
 ]
 
 
+# two-epoch literals of test_bdsky.py (distinct rates): (name, recent, old, rho, rho1, hb, x0, xs, tips, literal)
+BEAST_LITERALS_2 = [
+    ('test_1rho2times', _epi(4.0, 2.0, 0.0), _epi(1.5, 1.5, 0.0), 0.01, 0.0, 5.0, 10.0, [4.5, 5.5], [0, 0, 0], -78.4006528776),
+    ('test_likelihood_calculation4', (2.0, 1.0, 0.5), (3.0, 2.5, 2.0), 0.0, 0.0, 3.0, 6.0, [2.0, 4.0, 5.0], [0, 1.0, 2.5, 3.5], -33.7573),
+]
+
+
 def oracle_reproduces_beast():
     bad = []
+    for name, rec, old, rho, rho1, hb, x0, xs, tips, lit in BEAST_LITERALS_2:
+        v = skyline2_oracle(rec, old, rho, rho1, hb, x0, xs, tips)
+        if not abs(v - lit) <= 1e-4 * abs(lit):
+            bad.append(f'{name}: two-epoch oracle {v!r} vs BEAST2 literal {lit!r}')
     for name, (lam, mu, psi), rho, x0, xs, tips, surv, r, lit in BEAST_LITERALS:
         v = stadler_oracle(lam, mu, psi, rho, x0, xs, tips, surv, r)
         if not abs(v - lit) <= 1e-4 * abs(lit):
@@ -530,6 +590,9 @@ SIG_ALL0 = 'PiecewiseConstantBirthDeath.log_prob:all-tips-at-time-0-and-rho-0:ps
 SIG_REFINE = 'PiecewiseConstantBirthDeath.log_prob:changes-when-an-epoch-is-split'
 SIG_TIE = 'PiecewiseConstantBirthDeath.log_prob:serial-tip-exactly-on-epoch-boundary'
 SIG_RM = 'PiecewiseConstantBirthDeath.log_prob:removal_probability-with-several-epochs:raises'
+SIG_RHOB = 'PiecewiseConstantBirthDeath.log_prob:rho-sampling-at-an-inner-boundary-differs-from-two-epoch-oracle'
+SIG_DISTINCT = 'PiecewiseConstantBirthDeath.log_prob:two-epochs-with-distinct-rates-differ-from-two-epoch-oracle'
+SIG_REL_EDGE = 'PiecewiseConstantBirthDeath.log_prob:relative_times-with-root-edge:boundaries-not-relative-to-the-origin'
 SIG_BD0 = 'BirthDeath.log_prob:differs-from-constant-rate-oracle:tips-at-time-0'
 SIG_BD = 'BirthDeath.log_prob:differs-from-constant-rate-oracle'
 SIG_NAN = 'PiecewiseConstantBirthDeath.log_prob:nan:minus-inf-times-zero-for-a-masked-rho-tip'
@@ -537,7 +600,8 @@ SIG_NAN = 'PiecewiseConstantBirthDeath.log_prob:nan:minus-inf-times-zero-for-a-m
 
 def cfg_label(c):
     return (f"{c['cls']} m={c['m']} n={c['n']} survival={c['survival']} removal={c['removal']} origin={c['origin']} "
-            f"times={c['times']} rho={c['rho_shape']} split={c.get('split')}" + (f" cell={c['cell']}" if c.get('cell') else ''))
+            f"times={c['times']} rho={c['rho_shape']} split={c.get('split')}" + (f" cell={c['cell']}" if c.get('cell') else '')
+            + (' rho-sampling at the inner boundary' if c.get('rhob') else '') + (' distinct rates' if c.get('distinct') else ''))
 
 
 def var_names(c):
@@ -551,12 +615,17 @@ def var_names(c):
         names.append('r')
     if c['m'] == 2 and c['times'] in ('abs', 'rel'):
         names.append('tb')
+    if c.get('rhob'):
+        names.append('rhob')
+    if c.get('distinct'):
+        names += ['lam0', 'mu0', 'psi0']
     return names + [f's{i}' for i in range(n)] + [f'c{j}' for j in range(n - 1)]
 
 
 def initial_witness(c):
     n = c['n']
-    W = {'lam': 1.7, 'mu': 0.6, 'psi': 0.4, 'rho': 0.3, 'origin': 3.1 + 0.7 * (n - 2), 'edge': 0.9, 'r': 0.45}
+    W = {'lam': 1.7, 'mu': 0.6, 'psi': 0.4, 'rho': 0.3, 'origin': 3.1 + 0.7 * (n - 2), 'edge': 0.9, 'r': 0.45, 'rhob': 0.35,
+         'lam0': 1.3, 'mu0': 0.8, 'psi0': 0.5}
     for i in range(n):
         W[f's{i}'] = 0.2 + 0.3 * i
     for j in range(n - 1):
@@ -652,6 +721,10 @@ def domain_for(c):
         lam, mu, psi, rho = V['lam'], V['mu'], V['psi'], V['rho']
         cs = [d.lt(0, lam), d.lt(0, mu), d.le(0, psi), d.le(0, rho), d.le(rho, 1),
               d.or_(d.lt(0, psi), d.not_(d.eq(lam, mu)))]
+        if c.get('rhob'):
+            cs += [d.lt(0, V['rhob']), d.lt(V['rhob'], 1)]
+        if c.get('distinct'):
+            cs += [d.lt(0, V['lam0']), d.lt(0, V['mu0']), d.lt(0, V['psi0']), d.lt(0, psi)]
         if c['removal']:
             cs += [d.le(0, V['r']), d.le(V['r'], 1)]
             if (c.get('split') or {}).get('corner'):
@@ -704,7 +777,7 @@ def build_dist(c, mk):
     from torchtree.evolution.bdsk import PiecewiseConstantBirthDeath
 
     kw = dict(survival=c['survival'], validate_args=False)
-    kw['rho'] = mk(['rho']) if c['rho_shape'] == 'short' else mk([0.0] * (m - 1) + ['rho'])
+    kw['rho'] = mk(['rho']) if c['rho_shape'] == 'short' else mk((['rhob'] if c.get('rhob') else [0.0] * (m - 1)) + ['rho'])
     if c['origin'] == 'given':
         kw['origin'] = mk(['origin'])
     elif c['origin'] == 'root_edge':
@@ -715,6 +788,8 @@ def build_dist(c, mk):
     if c['times'] != 'none':
         kw['times'] = mk([0.0] + (['tb'] if m == 2 else []))
         kw['relative_times'] = c['times'] == 'rel'
+    if c.get('distinct'):  # epoch 0 is the older one (times run forward from the origin)
+        return PiecewiseConstantBirthDeath(mk(['lam0', 'lam']), mk(['mu0', 'mu']), mk(['psi0', 'psi']), **kw)
     return PiecewiseConstantBirthDeath(mk(['lam'] * m), mk(['mu'] * m), mk(['psi'] * m), **kw)
 
 
@@ -737,8 +812,18 @@ def oracle_args(c, get):
     return x0, ints, tips
 
 
+def two_epoch(c):
+    return bool(c.get('rhob') or c.get('distinct'))
+
+
 def numeric_oracle(c, vals):
     x0, xs, tips = oracle_args(c, lambda k: float(vals[k]))
+    if two_epoch(c):
+        f = lambda k: float(vals[k])  # noqa: E731
+        rec = (f('lam'), f('mu'), f('psi'))
+        old = (f('lam0'), f('mu0'), f('psi0')) if c.get('distinct') else rec
+        hb = x0 - f('tb') * x0 if c['times'] == 'rel' else x0 - f('tb')
+        return skyline2_oracle(rec, old, f('rho'), f('rhob') if c.get('rhob') else 0.0, hb, x0, xs, tips, c['survival'])
     return stadler_oracle(float(vals['lam']), float(vals['mu']), float(vals['psi']), float(vals['rho']), x0, xs, tips,
                           c['survival'], float(vals['r']) if c['removal'] else None)
 
@@ -778,8 +863,12 @@ def region_signature(c, W):
         return SIG_BD0 if any(s == 0 for s in tips) else SIG_BD
     if all(s == 0 for s in tips) and W['rho'] == 0:
         return SIG_ALL0
+    if c.get('rhob'):
+        return SIG_RHOB
+    if c.get('distinct'):
+        return SIG_DISTINCT
     if c['times'] == 'rel':
-        return SIG_REL
+        return SIG_REL_EDGE if c['origin'] == 'root_edge' else SIG_REL
     if c['m'] == 1:
         return SIG_ONE
     if c['removal']:
@@ -817,8 +906,15 @@ def make_body(c, tr, verbose=False):
             return [Goal(f'{what} (the real code raised {type(e).__name__}: {str(e)[:100]})', d.FALSE, signature=sig)]
         impl_end = len(d.ops)
         x0, xs, tips = oracle_args(c, lambda k: mkfloat(V[k]))
-        orc = stadler_oracle(mkfloat(V['lam']), mkfloat(V['mu']), mkfloat(V['psi']), mkfloat(V['rho']), x0, xs, tips,
-                             c['survival'], mkfloat(V['r']) if c['removal'] else None, M=_SymMath())
+        if two_epoch(c):
+            f = lambda k: mkfloat(V[k])  # noqa: E731
+            rec = (f('lam'), f('mu'), f('psi'))
+            older = (f('lam0'), f('mu0'), f('psi0')) if c.get('distinct') else rec
+            orc = skyline2_oracle(rec, older, f('rho'), f('rhob') if c.get('rhob') else 0.0, mkfloat(boundary_height(d, V, c)),
+                                  x0, xs, tips, c['survival'], M=_SymMath())
+        else:
+            orc = stadler_oracle(mkfloat(V['lam']), mkfloat(V['mu']), mkfloat(V['psi']), mkfloat(V['rho']), x0, xs, tips,
+                                 c['survival'], mkfloat(V['r']) if c['removal'] else None, M=_SymMath())
         if impl._ids.numel() != 1:
             return [Goal(f'{what} (result has shape {tuple(impl.shape)})', d.FALSE, signature=sig)]
         I = int(impl._ids.reshape(-1)[0])
